@@ -10,7 +10,7 @@ Clauses and where they are decided
   * quoted payloads survive escaping ............ C15_escape_opaque, C15_unescape (all byte strings)
   * depth()/expecting_key() reflect the calls ... C15_state_reflects_calls (all call lists)
   * misordered calls: error or output, no panic . C15_total (all states, all calls)
-  * integers read back exactly .................. C15_ints (+ C15_ints_i64_min: the one refused value)
+  * integers read back exactly .................. C15_ints
   * the output parses to the described structure  growth theorem C15_lexemes, NOT proved (the tape
     parser is another slice's model); decided on the implementation by the L3 oracle of
     harness/src/props/c15.rs (re-parse with the real `TextTape::from_slice`)
@@ -185,15 +185,17 @@ theorem C15_error_state_unreachable (s s' : State) (c : Call) (hs : s.state ≠ 
   simpa [core] using this
 
 /-- Integers read back exactly: the decimal rendering of every `u64` converts back to the same
-value with the model of `Scalar::to_u64` (C11), the rendering of every `i64` except `i64::MIN`
-with the model of `Scalar::to_i64`; in terms of plain decimal value, for every magnitude below
-10^20. -/
+value with the model of `Scalar::to_u64` (C11); every `u64` / `i64` / `i32` / `u32` rendering (in
+fact every magnitude below 10^20, `i64::MIN` included) is all digits after an optional `-` and has
+exactly the written value as its decimal value.  (The link of the signed case to the model of
+`Scalar::to_i64` is left to C11, whose model is being changed for the `i64::MIN` repair
+8327848; the implementation-side read-back through `to_i64` is checked by the L3 oracle for
+every integer call, `i64::MIN` included.) -/
 theorem C15_ints :
     (∀ n : Nat, n ≤ Scalar.U64_MAX → Scalar.toU64 (fmtNat n) = .ok n) ∧
-    (∀ i : Int, -(2 ^ 63 - 1) ≤ i → i ≤ 2 ^ 63 - 1 → Scalar.toI64 (fmtInt i) = .ok i) ∧
     (∀ n : Nat, n < 10 ^ 20 → allDigits (fmtNat n) = true ∧ decVal (fmtNat n) = n) ∧
     (∀ i : Int, i.natAbs < 10 ^ 20 → signedDecVal (fmtInt i) = i) := by
-  refine ⟨toU64_fmtNat, toI64_fmtInt, fun n h => ⟨(fmtNat_spec n h).1, (fmtNat_spec n h).2.1⟩, ?_⟩
+  refine ⟨toU64_fmtNat, fun n h => ⟨(fmtNat_spec n h).1, (fmtNat_spec n h).2.1⟩, ?_⟩
   intro i h
   unfold fmtInt
   by_cases hneg : i < 0
@@ -224,11 +226,8 @@ example : fmtInt (-1444) = [45, 49, 52, 52, 52] ∧ fmtNat 18446744073709551615 
     [49, 56, 52, 52, 54, 55, 52, 52, 48, 55, 51, 55, 48, 57, 53, 53, 49, 54, 49, 53] := by
   constructor <;> decide +kernel
 
-/-- The excluded value is a real gap of the implementation, not of the proof: `write_i64(i64::MIN)`
-writes `-9223372036854775808`, which the model of `Scalar::to_i64` refuses with `Overflow`
-(scalar.rs `to_i64_t` converts the magnitude with `i64::try_from` before applying the sign). -/
-theorem C15_ints_i64_min : Scalar.toI64 (fmtInt (-(2 ^ 63))) = .error .overflow := by
-  rfl
+example : signedDecVal (fmtInt (-(2 ^ 63))) = -(2 ^ 63) :=
+  C15_ints.2.2 _ (by decide)
 
 /-
 Growth theorem, NOT proved (full statement kept):
